@@ -389,6 +389,15 @@ fn cases(ctx: &Ctx, curve: &str) -> Vec<Case> {
     for cfg in [GenCfg::simple(0, 0), GenCfg::simple(1, 0), GenCfg::simple(2, 0), GenCfg::simple(3, 0), GenCfg::simple(1, 1), GenCfg::simple(2, 3), GenCfg::simple(0, 2), GenCfg { m: 0, ..GenCfg::simple(2, 1) }, GenCfg { pending1: true, ..GenCfg::simple(3, 2) }] {
         v.push(Case { curve: curve.into(), seed: r.u64(), cfg, taint: true });
     }
+    // size / count thresholds: >= 128 gates in a phase, >= 9 commitments
+    for cfg in [
+        GenCfg { q: 1, depth: 1, ..GenCfg::simple(128, 0) },
+        GenCfg { q: 1, depth: 1, ..GenCfg::simple(3, 130) },
+        GenCfg { m: 9, q: 2, ..GenCfg::simple(2, 0) },
+        GenCfg { m: 13, q: 2, ..GenCfg::simple(1, 1) },
+    ] {
+        v.push(Case { curve: curve.into(), seed: r.u64(), cfg, taint: false });
+    }
     for kind in 9990..=9994usize {
         v.push(Case { curve: curve.into(), seed: r.u64(), cfg: GenCfg { max_terms: kind, ..GenCfg::simple(0, 0) }, taint: true });
     }
@@ -404,7 +413,7 @@ fn cases(ctx: &Ctx, curve: &str) -> Vec<Case> {
 }
 
 fn run_curve<G: AffineRepr>(ctx: &Ctx, curve: &'static str, only: Option<&Case>) -> Agg {
-    let env = Env::<G>::new(curve, 64);
+    let env = Env::<G>::new(curve, 256);
     let cs = match only {
         Some(c) => vec![c.clone()],
         None => cases(ctx, curve),
